@@ -109,6 +109,7 @@ def reviewedPackageVars : List Site := [
   ("loader/interpolate.go", "", "map", "interpolateTypeCastMapping"),
   ("loader/loader.go", "", "slice", "userDefinedKeys"),
   ("loader/loader.go", "", "slice", "versionWarning"),
+  ("loader/loader.go", "", "unknown", "versionWarningMu"),   -- sync.Mutex guarding versionWarning (fix: commit for C19); holds no load-visible state
   ("loader/omitEmpty.go", "", "slice", "omitempty"),
   ("override/merge.go", "", "map", "mergeSpecials"),
   ("override/uncity.go", "", "map", "unique"),
